@@ -34,9 +34,9 @@ def run(res):
                         "files with an open writer at the time of the fault, and the target of the faulted operation, count as 'being modified'"]
     ok, why = vlib.proof_side(res, PID)
     exe = vlib.build_harness("asan")
-    nh = 8 if res.tier == "quick" else 60
+    nh = 9 if res.tier == "quick" else 72
     per = 25 if res.tier == "quick" else 400
-    mix = [("file", {"nops": 30}), ("seqread", {}), ("names", {"nops": 30}), ("file", {"nops": 30, "nfiles": 2}), ("seqread", {}), ("extbound", {}), ("dirc", {"nops": 20})]
+    mix = [("file", {"nops": 30}), ("seqread", {}), ("seekread", {}), ("names", {"nops": 30}), ("file", {"nops": 30, "nfiles": 2}), ("seekread", {}), ("seqread", {}), ("extbound", {}), ("dirc", {"nops": 20})]
     jobs = []
     for i in range(nh):
         prof, kw = mix[i % len(mix)]
@@ -51,11 +51,13 @@ def run(res):
         cand = [(j, k) for j in range(6, len(ops)) for k in range(counts[j])]
         rng.shuffle(cand)
         dt = hist.dostype_of(ops)
-        for (j, k) in cand[:per]:
-            jobs.append((ops, cb, j, k, dt))
+        for n_, (j, k) in enumerate(cand[:per]):
+            # multi-fault patterns: two or three consecutive failing accesses (a retry or a fallback path fails as well)
+            m = 1 if n_ % 5 < 3 else (2 if n_ % 5 == 3 else 3)
+            jobs.append((ops, cb, j, k, dt, m))
     from concurrent.futures import ThreadPoolExecutor
     def one(job):
-        ops, cb, j, k, dt = job
+        ops, cb, j, k, dt, m = job
         J = spec.Judge(dt, hist.nblocks_of(ops))
         for i in range(j): J.step(ops[i], cb[i])
         tainted = set()
@@ -79,11 +81,11 @@ def run(res):
         cont = []
         if tgt_handle is not None and a[0] in ("read", "seek") and tgt_handle.judged and tgt_handle.mode & 1 and not (tgt_handle.mode & 2):
             cont = [f"stat {a[1]}", f"read {a[1]} 700", f"stat {a[1]}", f"read {a[1]} 3000", f"stat {a[1]}", f"read {a[1]} 400000"]
-        ops2 = ops[:j] + [f"fault {k}", ops[j], "faultclear"] + cont + tail
+        ops2 = ops[:j] + [f"fault {k}" if m == 1 else f"faultn {k} {m}", ops[j], "faultclear"] + cont + tail
         rc2, cb2, err2 = vlib.run_c(exe, ops2, timeout=120)
         san = vlib.sanitizer_report(err2)
         bad = []
-        if san or rc2 != 0: bad.append(f"{san or 'exit %d' % rc2} with access {k} of '{ops[j]}' failing")
+        if san or rc2 != 0: bad.append(f"{san or 'exit %d' % rc2} with access {k}{'' if m == 1 else '..%d' % (k + m - 1)} of '{ops[j]}' failing")
         else:
             fired = cb2[j + 2][0] if j + 2 < len(cb2) else ""
             # the faulted operation itself, when it is a read on a judged handle
@@ -91,7 +93,7 @@ def run(res):
                 r = spec.kv(cb2[j + 1][0])
                 got = b"" if r.get("data", "-") == "-" else bytes.fromhex(r["data"])
                 want = bytes(tgt_handle.node.data[tgt_handle.pos:tgt_handle.pos + int(a[2])])
-                if got != want[:len(got)]: bad.append(f"'{ops[j]}' with its access {k} failing returned {len(got)} bytes that are not the file's content at offset {tgt_handle.pos}")
+                if got != want[:len(got)]: bad.append(f"'{ops[j]}' with its access {k}{'' if m == 1 else '..%d' % (k + m - 1)} failing returned {len(got)} bytes that are not the file's content at offset {tgt_handle.pos}")
             for ci in range(0, len(cont), 2):
                 st = spec.kv(cb2[j + 3 + ci][0]) if j + 3 + ci + 1 < len(cb2) else {}
                 rr = spec.kv(cb2[j + 3 + ci + 1][0]) if j + 3 + ci + 1 < len(cb2) else {}
@@ -99,7 +101,7 @@ def run(res):
                     p0 = int(st["pos"]); got = b"" if rr.get("data", "-") == "-" else bytes.fromhex(rr["data"])
                     want = bytes(tgt_handle.node.data[p0:p0 + len(got)])
                     if got != want:
-                        bad.append(f"after access {k} of '{ops[j]}' failed, the same handle returns {len(got)} bytes at offset {p0} that are not the file's content there")
+                        bad.append(f"after access {k}{'' if m == 1 else '..%d' % (k + m - 1)} of '{ops[j]}' failed, the same handle returns {len(got)} bytes at offset {p0} that are not the file's content there")
                         break
             for (ti, data, name) in expect:
                 idx = j + 3 + len(cont) + ti
